@@ -95,11 +95,7 @@ mutual
 * interface alternatives write the code they are registered under and the codes are distinct;
 * an `optional` field never has an empty encoding — the length marker 0 means "absent"
   (known finding: optional `*struct{}` decodes to nil);
-* elements of a collection validated for lexical order *and* uniqueness never have an empty
-  encoding — `LexicalOrderWithoutDupsValidator` takes a nil previous element for "no previous
-  element", so the writer misses duplicates that the reader rejects (known finding);
-* map keys are `isKey` types;
-* the bounds registered for a byte array admit its length (`Encode` checks them, `Decode` does not). -/
+* map keys are `isKey` types. -/
 def Ty.wf : Ty → Bool
   | .bool => true
   | .uint w => widthOk w
@@ -107,12 +103,12 @@ def Ty.wf : Ty → Bool
   | .float w => w == 4 || w == 8
   | .str _ _ _ => true
   | .bytes _ _ _ => true
-  | .byteArr n code mn mx => codeWf code && boundsOk mn mx n
+  | .byteArr _ code _ _ => codeWf code
   | .u256 => true
   | .time => true
-  | .slice _ r e => e.wf && (!(r.lex && r.noDups) || e.nonEmpty)
-  | .array _ _ r e => e.wf && (!(r.lex && r.noDups) || e.nonEmpty)
-  | .map _ r k v => k.isKey && k.wf && v.wf && (!r.noDups || k.nonEmpty)
+  | .slice _ _ e => e.wf
+  | .array _ _ _ e => e.wf
+  | .map _ _ k v => k.isKey && k.wf && v.wf
   | .struct code fs => codeWf code && fs.wf
   | .ptr t => t.ptrTarget && t.wf
   | .iface den alts => alts.wf den && nodupB alts.codes
